@@ -12,7 +12,8 @@
 (***************************************************************************)
 EXTENDS GrlEval, Json
 
-CONSTANT TraceFile
+CONSTANTS TraceFile,
+          Focus        \* "C03", ... : the property whose check is being run, or "none"
 Trace == ndJsonDeserialize(TraceFile)
 
 VARIABLES l,          \* next line of Trace
@@ -43,6 +44,7 @@ Live    == {r \in Names : ~rules[r].del}          \* not removed
 Active  == Live \ retracted
 Truth(r) == Holds(rules[r], facts)
 Broken(r) == Fails(rules[r], facts)
+HasRetract(r) == \E i \in DOMAIN rules[r].a : rules[r].a[i].k = "retract"
 MaxSal(S) == {r \in S : \A c \in S : rules[c].sal <= rules[r].sal}
 
 Flag(code) == /\ PrintT(<<"FLAG", code, tid, l>>)
@@ -51,7 +53,14 @@ Check(ok, code) == IF ok THEN UNCHANGED viol ELSE Flag(code)
 \* first failing check of a list decides the code
 RECURSIVE FirstBad(_, _)
 FirstBad(cs, i) == IF i > Len(cs) THEN "" ELSE IF cs[i][1] THEN FirstBad(cs, i + 1) ELSE cs[i][2]
-Checks(cs) == LET b == FirstBad(cs, 1) IN IF b = "" THEN UNCHANGED viol ELSE Flag(b)
+\* Every check of a list is a statement of its own; when several of one event fail, the one of the property in focus
+\* (the property whose check is being run) names the flag, otherwise the first.
+Pref(code) == Focus # "none" /\ Len(code) >= 3 /\ SubSeq(code, 1, 3) = Focus
+RECURSIVE FirstPref(_, _)
+FirstPref(cs, i) == IF i > Len(cs) THEN "" ELSE IF ~cs[i][1] /\ Pref(cs[i][2]) THEN cs[i][2] ELSE FirstPref(cs, i + 1)
+Checks(cs) == LET p == FirstPref(cs, 1)
+                  b == IF p # "" THEN p ELSE FirstBad(cs, 1)
+              IN IF b = "" THEN UNCHANGED viol ELSE Flag(b)
 \* (a function of counters, not a set of <<code, trace>> pairs: the monitor's state stays small, validation stays linear)
 Mark(S) == LET new == S \ seen IN
            /\ seen' = seen \cup S
@@ -121,6 +130,7 @@ CycleEv ==
   /\ Is("cycle")
   /\ Checks(<< <<mode = "exec" /\ ~done, "PROTO-cycle-outside-exec">>,
                <<pendErr = "", "C14-cycle-after-action-error">>,
+               <<pendErr = "", "C03-cycle-after-incomplete-actions">>,      \* (the same statement, as C03 puts it)
                <<~complete, "C10-cycle-after-complete">>,
                <<T.n = cyc + 1, "C06-cycle-number">>,
                <<cyc = 0 \/ execd, "C06-cycle-without-exec">>,
@@ -217,13 +227,18 @@ RetExec ==
        <<e # "panic", "C14-panic-escaped">>,
        <<e # "hang", "C06-no-return">>,
        <<T.lsnok, "C06-listeners-disagree">>,
-       <<T.facts = facts, IF cancelled THEN "C15-effects-after-cancel" ELSE IF pendErr # "" THEN "C14-effects-of-failed-rule" ELSE "C04-final-facts">>,
+       <<T.facts = facts, IF cancelled THEN "C15-effects-after-cancel" ELSE IF pendErr # "" THEN "C14-effects-of-failed-rule"
+                          ELSE IF complete THEN "C10-actions-around-complete" ELSE "C04-final-facts">>,
        <<pendErr # "" => (e = "acterr" /\ T.rule = pendErr), "C14-action-error-not-reported">>,
        <<e = "acterr" => (pendErr # "" \/ (cancelled /\ T.rule = lastExec)), "C14-spurious-action-error">>,
        <<e = "evalerr" => (flag /\ T.rule \in Active /\ T.rule \notin evald /\ Broken(T.rule)), "C14-spurious-evaluation-error">>,
        <<(e = "nil" /\ flag /\ ~complete /\ ~cancelled) => ~anyBroken, "C14-evaluation-error-not-returned">>,
        <<e = "ctx" => cancelled, "C15-context-error-without-cancel">>,
+       \* (after a cancellation, with no failed action, what is returned is the context's error - or the truthful natural end below)
+       <<(cancelled /\ pendErr = "") => e \notin {"acterr", "other"}, "C15-not-the-context-error">>,
        <<(cancelled /\ e = "nil") => (complete \/ Quiescent), "C15-nil-after-cancel-with-work-left">>,
+       \* (a run may not end because the rule fired last retracted something: every other rule is unaffected)
+       <<(e = "nil" /\ ~cancelled /\ lastExec \in Names /\ HasRetract(lastExec)) => (complete \/ Quiescent), "C10-retract-ended-the-run">>,
        <<(e = "nil" /\ ~cancelled) => (complete \/ Quiescent), "C02-returned-with-satisfied-rule">>,
        <<(e = "nil" /\ complete /\ ~cancelled) => execd, "C10-complete-without-exec">>,
        \* (a cancellation that arrives after the engine's last look at the context races with the natural end
